@@ -85,6 +85,13 @@ def gen_bool_expr(rng, in_loops):
         opts += [['cmp', 'lt', name('whileCounter'), ['int', 2]], ['cmp', 'ne', name('whileCounter'), ['int', 2]]]
     if 'retry' in in_loops:
         opts += [['cmp', 'lt', name('retryCounter'), ['int', 2]]]
+    if rng.random() < 0.03:
+        # an assignment expression binding the name of a context key: the binding lives for that one
+        # evaluation only (the Coq model is silent on these: the reference interpreter is the oracle)
+        k, v = rng.choice([('cnt', ['int', 5]), ('cnt', ['int', 0]), ('flag', ['bool', False]), ('flag', ['bool', True]),
+                           ('word', ['str', 'abc']), ('n', ['int', 9])])
+        return py(rng.choice([['cmp', 'eq', ['walrus', k, v], v], ['cmp', 'ne', ['walrus', k, v], v],
+                              ['or', ['cmp', 'eq', ['walrus', k, v], ['none']], rng.choice(opts)]]))
     return py(rng.choice(opts))
 
 
@@ -472,6 +479,55 @@ def recursive_call(rng, case):
                                                                ['pwatch', {'l': ['cnt', 'i']}]]}]]] + groups + \
         [['rec', rec], ['gz', [{'body': 'probe', 'in': [['ptag', 'main/gz/0']]}]]]
     case.pop('groups', None)
+    return case
+
+
+def falsy_item_call(rng, case):
+    """a foreach over items that are falsy (0, '', False, None) whose body calls a group running its
+    own foreach: the caller's current item is put back when the call returns, whatever its value."""
+    groups = [gs for gs in case['lib'][0][1] if gs[0] not in ('steps', 'fic', 'gz')]
+    items = rng.choice([[0, 1], [1, 0], ['', 'a'], [False, True], [None, 0], [0]])
+    callee = [{'body': 'probe', 'in': [['ptag', 'main/fic/0'], ['pwatch', {'l': ['i']}]]},
+              {'body': 'probe', 'in': [['ptag', 'main/fic/1']], 'foreach': {'l': ['p', 'q']}}]
+    callstep = {'body': 'call', 'in': [['ptag', 'main/steps/0'], ['call', 'fic']], 'foreach': {'l': items}}
+    shape = rng.choice(['plain', 'retry', 'while'])
+    if shape == 'retry':
+        callee.append({'body': 'fail', 'in': [['ptag', 'main/fic/2'],
+                                             ['vfail', {'d': [['err', 'ValueError'], ['msg', 'again'],
+                                                              ['when', py(['cmp', 'lt', name('retryCounter'), ['int', 2]])]]}]]})
+        callstep['retry'] = {'max': 3}
+    elif shape == 'while':
+        callstep['while'] = {'max': 2}
+    case['lib'][0][1] = [['steps', [callstep, {'body': 'probe', 'in': [['ptag', 'main/steps/after'],
+                                                                    ['pwatch', {'l': ['i']}]]}]]] + groups + \
+        [['fic', callee], ['gz', [{'body': 'probe', 'in': [['ptag', 'main/gz/0']]}]]]
+    case.pop('groups', None)
+    return case
+
+
+def walrus_shadow(rng, case):
+    """a !py decorator that binds a name with := , then later !py decorators reading the context key of
+    the same name (as run / skip / swallow, also inside loops): the binding must be gone."""
+    if case.get('dict_in') is None:
+        return case
+    d = dict((k, v) for k, v in case['dict_in'])
+    k = rng.choice(['cnt', 'flag', 'n'])
+    stale = {'cnt': ['int', 5], 'flag': ['bool', not d.get('flag', True)], 'n': ['int', 9]}[k]
+    reader = {'cnt': ['cmp', 'lt', name('cnt'), ['int', 2]], 'flag': name('flag'),
+              'n': ['cmp', 'lt', name('n'), ['int', 5]]}[k]
+    first = {'body': 'probe', 'in': [['ptag', 'main/steps/w0']], 'run': py(['cmp', 'eq', ['walrus', k, stale], stale])}
+    second = {'body': rng.choice(['probe', 'incr']), 'in': [['ptag', 'main/steps/w1'], ['vincr', 'other']],
+              rng.choice(['run', 'skip']): py(reader)}
+    if rng.random() < 0.4:
+        second['foreach'] = {'l': [1, 2]}
+    third = {'body': 'fail', 'in': [['ptag', 'main/steps/w2'], ['vfail', {'d': [['err', 'ValueError'], ['msg', 'x']]}]],
+             'swallow': py(reader if k != 'flag' else ['or', name('flag'), ['not', name('flag')]])}
+    for g in case['lib'][0][1]:
+        if g[0] == 'steps':
+            g[1] = [first, second] + ([third] if rng.random() < 0.5 else []) + (g[1] or [])
+            break
+    else:
+        case['lib'][0][1].insert(0, ['steps', [first, second]])
     return case
 
 
